@@ -43,7 +43,8 @@ enum { X_BASE = EP_COUNT * 3,
        X_MUT0, /* 12 mutation kinds */
        X_F2_S0 = X_MUT0 + 12, X_F2_S0_REACHED, X_HALFAGG_OVERFLOW, X_BPPP_REJECT_AFTER_ALLOC, X_BPPP_REJECT_MID, X_REWIND_OK, X_REWIND_SMALLBUF,
        X_SURJ_BIG, X_WL_BIG, X_RP_BIG, X_SURJ_VERIFY_OK, X_WL_VERIFY_OK, X_NORM_OK, X_HONEST, X_MUSIG_CANCEL, X_SIG_FAILED_PARSE_CONSUMED,
-       X_SURJ_OUT_EQ_IN, X_LAX_ONLY_ACCEPT, X_REENCODE, X_TOTAL };
+       X_SURJ_OUT_EQ_IN, X_LAX_ONLY_ACCEPT, X_REENCODE,
+       X_N0_SCHNORR, X_N0_RP_EXTRA, X_N0_AGGVERIFY, X_N0_INCAGG, X_N0_MUSIG, X_N0_REWIND_MSG, X_N0_XONLY_PARITY, X_TOTAL };
 const char *const VF_CLASS_NAMES[] = {
 #define X(n) #n, #n ":nt", #n ":ok",
     EPS(X)
@@ -53,7 +54,10 @@ const char *const VF_CLASS_NAMES[] = {
     "mut:copyfield", "mut:insdel", "mut:tailover",
     "f2:sig_s0_parsed", "f2:s0_reaches_recover", "halfagg:overflow_counts", "bppp:reject_after_alloc", "bppp:reject_mid_list", "rewind:ok", "rewind:small_msgbuf",
     "surj:n>=255", "whitelist:n=255", "rangeproof:64bit", "surj:verify_ok", "whitelist:verify_ok", "norm:verify_ok", "honest_unmodified",
-    "musig:cancelling", "sig:failed_parse_consumed", "surj:output_equals_input", "lax:accepts_strict_rejects", "mut:count_reencoded_consistent_length"
+    "musig:cancelling", "sig:failed_parse_consumed", "surj:output_equals_input", "lax:accepts_strict_rejects", "mut:count_reencoded_consistent_length",
+    /* documented NULL-with-zero-length / optional-NULL arguments (each used only where the header allows it) */
+    "null0:schnorrsig_verify_msg", "null0:rangeproof_extra_commit", "null0:halfagg_aggverify", "null0:halfagg_inc_aggregate", "null0:musig_optional",
+    "null0:rewind_message_out", "null0:xonly_from_pubkey_parity"
 };
 const int VF_N_CLASSES = X_TOTAL;
 
@@ -304,7 +308,7 @@ static void build_rangeproof(int i, art_t *a) {
     drv_bytes(msg, r->msg_len, "vf-c07/rp/msg", (unsigned)i);
     SETUP(secp256k1_pedersen_commit(ctx, &RP_COMMIT[i], RP_BLIND[i], r->value, &RP_GEN[i]) == 1);
     SETUP(secp256k1_rangeproof_sign(ctx, proof, &plen, r->min_value, &RP_COMMIT[i], RP_BLIND[i], RP_NONCE[i], r->exp, r->min_bits, r->value,
-                                    msg, r->msg_len, RP_EXTRA[i], r->extra_len, &RP_GEN[i]) == 1);
+                                    (r->msg_len == 0 && (i & 1)) ? NULL : msg, r->msg_len, (r->extra_len == 0 && (i & 1)) ? NULL : RP_EXTRA[i], r->extra_len, &RP_GEN[i]) == 1);
     SETUP(secp256k1_rangeproof_verify(ctx, &mn, &mx, &RP_COMMIT[i], proof, plen, RP_EXTRA[i], r->extra_len, &RP_GEN[i]) == 1);
     SETUP(mn <= r->value && r->value <= mx);
     SETUP(secp256k1_rangeproof_rewind(ctx, bl, &v, mo, &mlen, RP_NONCE[i], &mn, &mx, &RP_COMMIT[i], proof, plen, RP_EXTRA[i], r->extra_len, &RP_GEN[i]) == 1);
@@ -516,7 +520,7 @@ static void build_small(int ac, int i, art_t *a) {
         static const size_t ml[5] = {32, 0, 1, 100, 32};
         unsigned char m[100]; secp256k1_xonly_pubkey chk; int k = i == 4 ? 1 : 0;
         if (i == 0 || i == 4) { memcpy(t, SCHNORR[k], 64); memcpy(m, MSGS[k], 32); }
-        else { drv_bytes(m, ml[i], "vf-c07/schnorr/msg", (unsigned)i); SETUP(secp256k1_schnorrsig_sign_custom(ctx, t, m, ml[i], &KP[0], NULL) == 1); }
+        else { drv_bytes(m, ml[i], "vf-c07/schnorr/msg", (unsigned)i); SETUP(secp256k1_schnorrsig_sign_custom(ctx, t, ml[i] ? m : NULL, ml[i], &KP[0], NULL) == 1); }
         SETUP(secp256k1_xonly_pubkey_serialize(ctx, t + 64, &XPK[k]) == 1);
         memcpy(t + 96, m, ml[i]);
         SETUP(secp256k1_xonly_pubkey_parse(ctx, &chk, t + 64) == 1 && secp256k1_schnorrsig_verify(ctx, t, t + 96, ml[i], &chk) == 1);
@@ -793,6 +797,7 @@ static void use_pubkey(const secp256k1_pubkey *pk, unsigned aux, int deep) {
     R(secp256k1_ec_pubkey_combine(ctx, out, two, 1));
     three[0] = &PK[2]; three[1] = pk; three[2] = &PK[0]; R(secp256k1_ec_pubkey_sort(ctx, three, 3));
     VF_CHECK(R(secp256k1_xonly_pubkey_from_pubkey(ctx, x, &par, pk)) == 1 && (par == 0 || par == 1), "xonly_pubkey_from_pubkey of a parsed key failed");
+    if (aux & 16) { vf_class(X_N0_XONLY_PARITY); VF_CHECK(R(secp256k1_xonly_pubkey_from_pubkey(ctx, x, NULL, pk)) == 1, "xonly_pubkey_from_pubkey(pk_parity = NULL) failed"); }
     switch (grp) {
     case 0:
         *t = *pk; R(secp256k1_ec_pubkey_tweak_add(ctx, t, TWEAK));
@@ -808,6 +813,19 @@ static void use_pubkey(const secp256k1_pubkey *pk, unsigned aux, int deep) {
         secp256k1_musig_keyagg_cache *cache = (secp256k1_musig_keyagg_cache *)H(sizeof(*cache));
         secp256k1_musig_session *s = (secp256k1_musig_session *)H(sizeof(*s));
         two[0] = pk; two[1] = &PK[1];
+        if (aux & 8) {
+            /* every optional argument absent: agg_pk / keyagg_cache NULL, nonce_gen with only the mandatory arguments (the parsed key is `pubkey`) */
+            secp256k1_musig_secnonce sn; secp256k1_musig_pubnonce *pn = (secp256k1_musig_pubnonce *)H(sizeof(*pn)); unsigned char rnd[32];
+            vf_class(X_N0_MUSIG);
+            R(secp256k1_musig_pubkey_agg(ctx, NULL, cache, two, 2));
+            R(secp256k1_musig_pubkey_agg(ctx, x, NULL, two, 2));
+            R(secp256k1_musig_pubkey_agg(ctx, NULL, NULL, two, 2));
+            memcpy(rnd, DATA32, 32);
+            VF_CHECK(R(secp256k1_musig_nonce_gen(ctx, &sn, pn, rnd, NULL, pk, NULL, NULL, NULL)) == 1, "musig_nonce_gen with only the mandatory arguments failed");
+            memcpy(rnd, DATA32, 32);
+            R(secp256k1_musig_nonce_gen(ctx, &sn, pn, rnd, NULL, pk, MSG, cache, NULL));
+            memset(&sn, 0, sizeof(sn));
+        }
         if (R(secp256k1_musig_pubkey_agg(ctx, x, cache, two, 2))) {
             R(secp256k1_musig_pubkey_get(ctx, out, cache));
             if (aux & 1) R(secp256k1_musig_pubkey_xonly_tweak_add(ctx, out, cache, TWEAK)); else R(secp256k1_musig_pubkey_ec_tweak_add(ctx, NULL, cache, TWEAK));
@@ -1032,7 +1050,6 @@ static void ep_ecdsa_verify(cur_t *c, unsigned recipe, unsigned ctl, unsigned au
 static void ep_schnorr_verify(cur_t *c, unsigned recipe, unsigned ctl, unsigned aux, unsigned declared) {
     unsigned rec; unsigned char *sig64, *pk32, *msg; size_t ml; int pok, v;
     secp256k1_xonly_pubkey *x = (secp256k1_xonly_pubkey *)H(sizeof(*x));
-    (void)aux;
     make_input(AC_SCHNORRV, c, recipe, ctl, declared, 96 + 100, 0, &rec);
     if (Wn < 96) { memset(W + Wn, 0, 96 - Wn); Wn = 96; }
     ml = Wn - 96;
@@ -1040,6 +1057,7 @@ static void ep_schnorr_verify(cur_t *c, unsigned recipe, unsigned ctl, unsigned 
     pok = R(secp256k1_xonly_pubkey_parse(ctx, x, pk32));
     mark(pok, 0);
     if (!pok) return;
+    if (ml == 0 && (aux & 1)) { vf_class(X_N0_SCHNORR); msg = NULL; }    /* documented: "Can only be NULL if msglen is 0" */
     v = R(secp256k1_schnorrsig_verify(ctx, sig64, msg, ml, x));
     mark(0, v);
     if (honest) VF_CHECK(v == 1, "valid BIP-340 signature rejected");
@@ -1133,7 +1151,7 @@ static void ep_musig(cur_t *c, unsigned recipe, unsigned ctl, unsigned aux, unsi
 /* ---- range proofs */
 static void ep_rangeproof(cur_t *c, unsigned recipe, unsigned ctl, unsigned aux, unsigned declared, int which) {
     unsigned rec; unsigned char *in, *extra; int ok, ex = 0, mant = 0, info; uint64_t mn = 0, mx = 0, mn2 = 0, mx2 = 0;
-    const art_t *a;
+    const art_t *a; unsigned recipe0 = recipe;
     if (which != 2 && recipe % 128 >= 123) {   /* 16..64-bit proofs (32..128 scalar multiplications) only now and then */
         static const long cost[5] = {35, 35, 70, 125, 135};
         if (!heavy_ok(cost[recipe % 128 - 123])) recipe = recipe % 108;
@@ -1143,6 +1161,8 @@ static void ep_rangeproof(cur_t *c, unsigned recipe, unsigned ctl, unsigned aux,
     art(AC_RANGEPROOF, rec);   /* context (commitment, generator, nonce) of the recipe also in raw mode */
     in = (unsigned char *)HC(W, Wn);
     extra = (unsigned char *)HC(RP_EXTRA[rec], RPR[rec].extra_len);
+    /* "extra_commit_len: 0 if NULL": with length 0 either NULL or a pointer to a block with zero accessible bytes */
+    if (RPR[rec].extra_len == 0 && (recipe0 & 0x80)) { vf_class(X_N0_RP_EXTRA); extra = NULL; }
     if (rec == (unsigned)NRP - 1 && honest) vf_class(X_RP_BIG);
     info = R(secp256k1_rangeproof_info(ctx, &ex, &mant, &mn2, &mx2, in, Wn));
     if (info) VF_CHECK(ex >= -1 && ex <= 18 && mant >= 0 && mant <= 64 && mn2 <= mx2, "rangeproof_info: header fields out of the documented range");
@@ -1152,7 +1172,7 @@ static void ep_rangeproof(cur_t *c, unsigned recipe, unsigned ctl, unsigned aux,
         return;
     }
     if (which == 0) {
-        ok = R(secp256k1_rangeproof_verify(ctx, &mn, &mx, &RP_COMMIT[rec], in, Wn, RPR[rec].extra_len ? extra : NULL, RPR[rec].extra_len, &RP_GEN[rec]));
+        ok = R(secp256k1_rangeproof_verify(ctx, &mn, &mx, &RP_COMMIT[rec], in, Wn, extra, RPR[rec].extra_len, &RP_GEN[rec]));
         mark(info, ok);
         if (honest) VF_CHECK(ok == 1, "valid range proof rejected");
         if (ok) VF_CHECK(info == 1 && mn == mn2 && mx == mx2 && mn <= mx, "rangeproof_verify accepted but the proven range differs from rangeproof_info");
@@ -1164,8 +1184,9 @@ static void ep_rangeproof(cur_t *c, unsigned recipe, unsigned ctl, unsigned aux,
         if (aux & 0x80) nonce[aux & 31] ^= 1;   /* wrong nonce: verification passes, rewinding must fail cleanly */
         ol = outlen;
         if (outlen < 32 * 4) vf_class(X_REWIND_SMALLBUF);
-        if ((aux & 0x70) == 0x70) ok = R(secp256k1_rangeproof_rewind(ctx, bl, &v, NULL, NULL, nonce, &mn, &mx, &RP_COMMIT[rec], in, Wn, RPR[rec].extra_len ? extra : NULL, RPR[rec].extra_len, &RP_GEN[rec]));
-        else ok = R(secp256k1_rangeproof_rewind(ctx, bl, &v, mo, &ol, nonce, &mn, &mx, &RP_COMMIT[rec], in, Wn, RPR[rec].extra_len ? extra : NULL, RPR[rec].extra_len, &RP_GEN[rec]));
+        if ((aux & 0x70) == 0x70) vf_class(X_N0_REWIND_MSG);   /* no message wanted: the code's contract is message_out != NULL || outlen == NULL */
+        if ((aux & 0x70) == 0x70) ok = R(secp256k1_rangeproof_rewind(ctx, bl, &v, NULL, NULL, nonce, &mn, &mx, &RP_COMMIT[rec], in, Wn, extra, RPR[rec].extra_len, &RP_GEN[rec]));
+        else ok = R(secp256k1_rangeproof_rewind(ctx, bl, &v, mo, &ol, nonce, &mn, &mx, &RP_COMMIT[rec], in, Wn, extra, RPR[rec].extra_len, &RP_GEN[rec]));
         mark(info, ok);
         if (ok) {
             vf_class(X_REWIND_OK);
@@ -1293,6 +1314,7 @@ static void ep_halfagg(cur_t *c, unsigned recipe, unsigned ctl, unsigned aux, un
         in = (unsigned char *)HC(W, Wn);
         keys = (secp256k1_xonly_pubkey *)HC(XPK, n * sizeof(secp256k1_xonly_pubkey));
         msgs = (unsigned char *)HC(MSGS, 32 * n);
+        if (n == 0 && (aux & 8)) vf_class(X_N0_AGGVERIFY);       /* "Can only be NULL if n is 0" */
         ok = R(secp256k1_schnorrsig_aggverify(ctx, (n == 0 && (aux & 8)) ? NULL : keys, (n == 0 && (aux & 8)) ? NULL : msgs, n, in, Wn));
         mark(Wn % 32 == 0 && Wn / 32 == n + 1, ok);
         if (honest && n == rec) VF_CHECK(ok == 1, "valid half-aggregate signature rejected");
@@ -1323,13 +1345,18 @@ static void ep_halfagg(cur_t *c, unsigned recipe, unsigned ctl, unsigned aux, un
         for (k = 0; k < n_new; k++) memcpy(news + 64 * k, SCHNORR[(n + k) % NK], 64);
         if ((aux & 8) && n_new) { size_t t = c->n < 64 * n_new ? c->n : 64 * n_new; memcpy(news, c->p, t); }   /* untrusted new signatures */
         len = L;
-        ok = R(secp256k1_schnorrsig_inc_aggregate(ctx, buf, &len, total ? keys : NULL, total ? msgs : NULL, n_new ? news : NULL, n, n_new));
+        {   /* "Can only be NULL if n_before + n_new is 0" / "if n_new is 0": NULL or a pointer to zero accessible bytes */
+            int usenull = (aux & 0x20) != 0;
+            if (usenull && (total == 0 || n_new == 0)) vf_class(X_N0_INCAGG);
+            ok = R(secp256k1_schnorrsig_inc_aggregate(ctx, buf, &len, (total == 0 && usenull) ? NULL : keys, (total == 0 && usenull) ? NULL : msgs,
+                                                      (n_new == 0 && usenull) ? NULL : news, n, n_new));
+        }
         mark(L >= want, ok);
         if (ok) {
             int v;
             VF_CHECK(len == want && len <= L, "inc_aggregate: reported length is not 32*(n+1) or exceeds the buffer");
             if (total > 2 && !(aux & 16)) return;
-            v = R(secp256k1_schnorrsig_aggverify(ctx, total ? keys : NULL, total ? msgs : NULL, total, (unsigned char *)HC(buf, len), len));
+            v = R(secp256k1_schnorrsig_aggverify(ctx, (total == 0 && (aux & 0x20)) ? NULL : keys, (total == 0 && (aux & 0x20)) ? NULL : msgs, total, (unsigned char *)HC(buf, len), len));
             if (honest && !(aux & 8) && total <= 5) VF_CHECK(v == 1, "incrementally aggregated valid signatures do not verify");
         }
     }
